@@ -9,6 +9,7 @@ package main
 
 import (
 	"fmt"
+	"os"
 	"io"
 	"net"
 	"net/http"
@@ -102,6 +103,11 @@ func (s *stub) ServeHTTP(w http.ResponseWriter, r *http.Request) {
 		s.viol = append(s.viol, "stub "+s.url+" received the proxied request "+r.Header.Get("X-Verif-Request")+" while every server entry naming it is marked disabled")
 	}
 	w.Header().Set("X-Verif-Stub", s.url)
+	if to := r.Header.Get("X-Verif-Redirect"); to != "" && to != s.url {
+		w.Header().Set("Location", to+r.URL.Path)
+		w.WriteHeader(302)
+		return
+	}
 	w.WriteHeader(200)
 	io.WriteString(w, `{"kind":"Status","apiVersion":"v1","status":"Success"}`)
 }
@@ -180,6 +186,12 @@ type DOp struct {
 	Subsets  [][]int `json:"subsets"`
 	Healthy  []bool  `json:"healthy"` // health of every stub from this op on (true = 200 "ok", false = 500), unless Answers is given
 	Answers  []int   `json:"answers"` // what every stub's /healthz answers from this op on (see stub.answer)
+	// request: Upgrade sends an UPGRADE request (exec / attach / port-forward: Connection: Upgrade, Upgrade: SPDY/3.1) over a real
+	// connection; Redirect >= 0: the upstream that receives it answers 302 with Location = the same path on stub Redirect (another
+	// port of the same host). WaitMs (op "wait"): let wall-clock time pass.
+	Upgrade  bool `json:"upgrade"`
+	Redirect int  `json:"redirect"`
+	WaitMs   int  `json:"wait_ms"`
 	Stub     int     `json:"stub"`
 	Policy   int     `json:"policy"`
 }
@@ -234,8 +246,17 @@ func readableD(cs DCase) string {
 			fmt.Fprintf(&b, "trigger(%s) /healthz answers=%s", refName(op.Stub), answersText(op))
 		case "reset":
 			fmt.Fprintf(&b, "ResetTransport(%s)", refName(op.Stub))
+		case "wait":
+			fmt.Fprintf(&b, "wait %d ms", op.WaitMs)
 		case "request":
-			fmt.Fprintf(&b, "request for policy %d", op.Policy)
+			if op.Upgrade {
+				fmt.Fprintf(&b, "UPGRADE request for policy %d", op.Policy)
+				if op.Redirect >= 0 {
+					fmt.Fprintf(&b, " (the upstream answers 302 to stub%d)", op.Redirect)
+				}
+			} else {
+				fmt.Fprintf(&b, "request for policy %d", op.Policy)
+			}
 		}
 	}
 	return b.String()
@@ -316,6 +337,8 @@ func runDispatch(c *rig.Ctx, cs DCase, record bool, st *stats) bool {
 			// EndpointInfo.ResetTransport(): the model has no transports; for it the op is EnsureGatewayHealthCheck, which
 			// changes nothing in a quiescent state — and nothing observable may change on the real code either
 			ops = append(ops, lib.Op{Op: "ensure", N: hexOf(d.Stub), Up: upOf(d)})
+		case "wait":
+			ops = append(ops, lib.Op{Op: "ensure", N: rig.Hex("http://no-such-endpoint"), Up: []lib.UpEnt{}})
 		case "request":
 			ops = append(ops, lib.Op{Op: "match", Policy: d.Policy}, lib.Op{Op: "pop", Picker: matches})
 			matches++
@@ -377,6 +400,9 @@ func runDispatch(c *rig.Ctx, cs DCase, record bool, st *stats) bool {
 	var curServers []DSrv
 	reqNo := 0
 	matches = 0
+	inconclusiveReq := false
+	upgradeAnswered := false
+	pendingDiff := ""
 	for i, d := range cs.Dispatch {
 		k := opIndex[i]
 		setHealth := func(d DOp) {
@@ -431,6 +457,8 @@ func runDispatch(c *rig.Ctx, cs DCase, record bool, st *stats) bool {
 						opErr = "ResetTransport: " + err.Error()
 					}
 				}
+			case "wait":
+				time.Sleep(time.Duration(d.WaitMs) * time.Millisecond)
 			case "request":
 				if w.CI == nil {
 					opErr = "request before the first sync"
@@ -448,16 +476,46 @@ func runDispatch(c *rig.Ctx, cs DCase, record bool, st *stats) bool {
 				pinfo := gatewayrequest.NewProxyInfo()
 				ctx = gatewayrequest.WithProxyInfo(ctx, pinfo)
 				rec := httptest.NewRecorder()
-				done := make(chan struct{})
-				go func() {
-					defer close(done)
-					disp.ServeHTTP(rec, req.WithContext(ctx))
-				}()
-				select {
-				case <-done:
-				case <-time.After(20 * time.Second):
-					opErr = "the dispatcher did not answer within 20 s"
-					return
+				if d.Upgrade {
+					// a real connection (an upgrade is hijacked): the dispatcher behind a server that installs the same context
+					front := httptest.NewServer(http.HandlerFunc(func(rw http.ResponseWriter, r *http.Request) {
+						disp.ServeHTTP(rw, r.WithContext(ctx))
+					}))
+					ureq, _ := http.NewRequest("GET", front.URL+req.URL.Path, nil)
+					ureq.Header.Set("X-Verif-Request", id)
+					ureq.Header.Set("Connection", "Upgrade")
+					ureq.Header.Set("Upgrade", "SPDY/3.1")
+					if d.Redirect >= 0 {
+						ureq.Header.Set("X-Verif-Redirect", ss[d.Redirect%len(ss)].url)
+					}
+					cl := &http.Client{Timeout: 20 * time.Second, Transport: &http.Transport{DisableKeepAlives: true},
+						CheckRedirect: func(*http.Request, []*http.Request) error { return http.ErrUseLastResponse }}
+					resp, err := cl.Do(ureq)
+					if err != nil {
+						front.Close()
+						inconclusiveReq = true
+						return
+					}
+					io.Copy(io.Discard, resp.Body)
+					resp.Body.Close()
+					front.Close()
+					rec.Code = resp.StatusCode
+					for k2, v := range resp.Header {
+						rec.Header()[k2] = v
+					}
+					upgradeAnswered = true
+				} else {
+					done := make(chan struct{})
+					go func() {
+						defer close(done)
+						disp.ServeHTTP(rec, req.WithContext(ctx))
+					}()
+					select {
+					case <-done:
+					case <-time.After(20 * time.Second):
+						opErr = "the dispatcher did not answer within 20 s"
+						return
+					}
 				}
 				// who received it?
 				var got []int
@@ -469,6 +527,15 @@ func runDispatch(c *rig.Ctx, cs DCase, record bool, st *stats) bool {
 						}
 					}
 					s.mu.Unlock()
+				}
+				if upgradeAnswered {
+					// whatever the client is told about an upgrade that did not happen (302 relayed, 502 "bad gateway" …): the
+					// request counts as forwarded to the server that received it; 503 / 500 before forwarding stay what they are
+					upgradeAnswered = false
+					if len(got) == 1 && rec.Code != 503 {
+						rec.Code = 200
+						rec.Header().Set("X-Verif-Stub", ss[got[0]].url)
+					}
 				}
 				// the request in the in-process vocabulary: which upstream list it had, what it was answered
 				var us []string
@@ -498,6 +565,8 @@ func runDispatch(c *rig.Ctx, cs DCase, record bool, st *stats) bool {
 				}
 				code := rec.Code
 				switch {
+				case len(got) > 1:
+					opErr = fmt.Sprintf("judge:c03.dispatch-wrong-target:%s was received by %d servers (stubs %v): the gateway sent it on to a server that was not picked for it", id, len(got), got)
 				case d.Policy >= len(curSubsets):
 					// no policy matches: the dispatcher answers 500 "no router rule matches this request"; nothing may be forwarded
 					impl[k+1].Out = &lib.OutJ{Err: "nopicker"}
@@ -516,7 +585,8 @@ func runDispatch(c *rig.Ctx, cs DCase, record bool, st *stats) bool {
 					// the endpoint the dispatcher says it picked (ProxyInfo.Endpoint) must be a spelling of the stub that
 					// actually received the request
 					picked := pinfo.Endpoint
-					if !pinfo.Forwarded || !(picked == ss[got[0]].url || strings.HasPrefix(picked, ss[got[0]].url+"/")) {
+					// (Forwarded is cleared again when the proxied exchange ends in an error answer; the endpoint stays recorded)
+					if !(picked == ss[got[0]].url || strings.HasPrefix(picked, ss[got[0]].url+"/")) {
 						opErr = fmt.Sprintf("judge:c03.dispatch-wrong-target:%s: the dispatcher recorded endpoint %q (forwarded=%v) but %s received the request", id, picked, pinfo.Forwarded, ss[got[0]].url)
 						break
 					}
@@ -534,6 +604,10 @@ func runDispatch(c *rig.Ctx, cs DCase, record bool, st *stats) bool {
 		})
 		if panicked {
 			return fail("judge", "c03.panic", fmt.Sprintf("end-to-end op %d (%s) panicked: %s", i, d.Op, msg), nil)
+		}
+		if inconclusiveReq { // a client-side time-out on a real connection: proves nothing
+			c.Count("e2e-inconclusive")
+			return true
 		}
 		if strings.HasPrefix(opErr, "judge:") {
 			p := strings.SplitN(opErr, ":", 3)
@@ -582,7 +656,12 @@ func runDispatch(c *rig.Ctx, cs DCase, record bool, st *stats) bool {
 			if strings.HasPrefix(unsettled, "workers:") {
 				return fail("judge", "c03.probing-set", fmt.Sprintf("after end-to-end op %d (%s) with %d enabled servers: %s", i, d.Op, workers, unsettled), nil)
 			}
-			return fail("diff", "c03.probe-count", fmt.Sprintf("after end-to-end op %d (%s): %s", i, d.Op, unsettled), nil)
+			// the probes did not happen as the model says (e.g. a health function that does not return): the history goes on —
+			// what the servers receive is still judged — and the difference is reported if nothing worse is found
+			if pendingDiff == "" {
+				pendingDiff = fmt.Sprintf("after end-to-end op %d (%s): %s", i, d.Op, unsettled)
+			}
+			w.Timeout = time.Second
 		}
 		if d.Op == "request" {
 			st.pops++
@@ -592,6 +671,16 @@ func runDispatch(c *rig.Ctx, cs DCase, record bool, st *stats) bool {
 				st.popOK++
 			}
 		}
+	}
+	if pendingDiff != "" {
+		if os.Getenv("VERIF_C03_DEBUG") != "" {
+			for _, s := range ss {
+				s.mu.Lock()
+				fmt.Fprintf(os.Stderr, "DEBUG stub %s probes=%d inSpec=%v mayRecv=%v viol=%v\n", s.url, s.probes, s.inSpec, s.mayRecv, s.viol)
+				s.mu.Unlock()
+			}
+		}
+		return fail("diff", "c03.probe-count", pendingDiff, nil)
 	}
 	// every probe the gateway made arrived at the stub it was meant for
 	eps, _, _ := w.Snapshot()
@@ -737,7 +826,14 @@ func genDispatch(c *rig.Ctx) DCase {
 			}
 			cs.Dispatch = append(cs.Dispatch, DOp{Op: "trigger", Stub: t, Answers: answers()})
 		default:
-			cs.Dispatch = append(cs.Dispatch, DOp{Op: "request", Policy: r.Intn(npol + 1)})
+			op := DOp{Op: "request", Policy: r.Intn(npol + 1), Redirect: -1}
+			if r.Intn(5) == 0 { // exec / attach / port-forward; the upstream may answer 302 to another port of the same host
+				op.Upgrade = true
+				if r.Intn(3) != 0 {
+					op.Redirect = r.Intn(4)
+				}
+			}
+			cs.Dispatch = append(cs.Dispatch, op)
 		}
 	}
 	return cs
